@@ -3,6 +3,7 @@ package gosym
 // Models of cosmos-sdk runtime pieces: Context, KV stores, codec, params, bech32, errors, events, rand.
 
 import (
+	"os"
 	"fmt"
 	"go/types"
 	"math/big"
@@ -313,6 +314,7 @@ func init() {
 			lazy := b.Blob.Lazy
 			for _, sh := range shapes {
 				sh := sh
+				bindKeyLayout(cc.S, lazy, et, sh.val)
 				sh.cond = And(sh.cond, wfCond(cc.S, lazy, et, sh.val))
 				outs = append(outs, Outcome{Cond: sh.cond, Do: func(st *State) {
 					st.W.LazyVals[lazy] = lazyVal{typ: et, val: sh.val}
@@ -933,4 +935,156 @@ func stripPrefixT(k, p *Term) *Term {
 	}
 	n := Len(p)
 	return Substr(k, n, Sub(Len(k), n))
+}
+
+// bindKeyLayout: an open-world record is read at a key whose term spells out the declared key layout of
+// its type piece by piece (constants, one term per variable part). When every string part of the layout
+// is declared to hold an account address (WFAddr) and the other parts are hex / decimal renderings, the
+// key parses in exactly one way ("/"-free components, A-KEYPARSE), so the record's key fields are those
+// terms: they are bound directly instead of being fresh variables tied to the key by a string equation.
+func bindKeyLayout(s *State, lazy int, et types.Type, val Value) {
+	st, ok := et.Underlying().(*types.Struct)
+	sv, ok2 := val.(*StructV)
+	if !ok || !ok2 || os.Getenv("GOSYM_NOBIND") != "" {
+		return
+	}
+	tn := shortType(et)
+	addrFields := map[string]bool{}
+	if spec, ok := s.W.Ghost["wfaddr:"+tn]; ok {
+		for _, f := range spec.([]string) {
+			addrFields[f] = true
+		}
+	}
+	fieldIdx := func(name string) int {
+		for i := 0; i < st.NumFields(); i++ {
+			if st.Field(i).Name() == name {
+				return i
+			}
+		}
+		return -1
+	}
+	for store, m := range s.W.Stores {
+		spec, ok := s.W.Ghost["wfkey:"+store+":"+tn]
+		if !ok {
+			continue
+		}
+		for r := m.Reads; r != nil; r = r.next {
+			if r.val == nil || r.val.Blob == nil || r.val.Blob.Lazy != lazy {
+				continue
+			}
+			var chosen []string
+			for _, cand := range spec.([][]string) {
+				if len(cand) > 0 && PrefixOf(MkStr(cand[0]), r.key) == TTrue {
+					chosen = cand
+					break
+				}
+			}
+			if chosen == nil {
+				continue
+			}
+			for _, p := range chosen {
+				if strings.HasPrefix(p, "$") && !addrFields[p[1:]] {
+					return
+				}
+			}
+			pieces := parts(r.key)
+			pi, off := 0, 0
+			binds := map[int]Value{}
+			okMatch := true
+			for _, p := range chosen {
+				if pi >= len(pieces) {
+					okMatch = false
+					break
+				}
+				pc := pieces[pi]
+				switch {
+				case strings.HasPrefix(p, "$"), strings.HasPrefix(p, "hex:$"), strings.HasPrefix(p, "dec:$"):
+					if pc.IsConst() || off != 0 {
+						okMatch = false
+						break
+					}
+					switch {
+					case strings.HasPrefix(p, "$"):
+						// the record's own fields are "/"-free (addresses), so the key has exactly the layout's
+						// separators and this piece is the whole field whatever it may contain otherwise
+						binds[fieldIdx(p[1:])] = pc
+					case strings.HasPrefix(p, "hex:$"):
+						if pc.Op != "uf" || pc.SV != "hex" {
+							okMatch = false
+							break
+						}
+						binds[fieldIdx(p[5:])] = &BytesV{T: pc.Args[0], NilT: Eq(Len(pc.Args[0]), MkI(0))}
+					default:
+						var x *Term
+						if pc.Op == "str.from_int" {
+							x = pc.Args[0]
+						} else if pc.Op == "ite" && pc.Args[2].Op == "str.from_int" {
+							x = pc.Args[2].Args[0]
+						}
+						if x == nil || decT(x) != pc {
+							okMatch = false
+							break
+						}
+						binds[fieldIdx(p[5:])] = x
+					}
+					pi++
+				default:
+					if !pc.IsConst() || !strings.HasPrefix(pc.SV[off:], p) {
+						okMatch = false
+						break
+					}
+					off += len(p)
+					if off == len(pc.SV) {
+						pi, off = pi+1, 0
+					}
+				}
+				if !okMatch {
+					break
+				}
+			}
+			if !okMatch || pi != len(pieces) || off != 0 {
+				return
+			}
+			for i, v := range binds {
+				if i < 0 {
+					return
+				}
+				// int fields keep their declared width: the bound term must fit
+				if t, ok := v.(*Term); ok && t.Sort == SInt {
+					if old, ok := sv.F[i].(*Term); ok {
+						olo, ohi := Bounds(old)
+						nlo, nhi := Bounds(t)
+						if olo == nil || ohi == nil || nlo == nil || nhi == nil || nlo.Cmp(olo) < 0 || nhi.Cmp(ohi) > 0 {
+							return
+						}
+					}
+				}
+			}
+			for i, v := range binds {
+				// the scenario entry of the replaced fresh variable now reports the bound term's value
+				var oldT, newT *Term
+				switch o := sv.F[i].(type) {
+				case *Term:
+					oldT = o
+				case *BytesV:
+					oldT = o.T
+				}
+				switch n := v.(type) {
+				case *Term:
+					newT = n
+				case *BytesV:
+					newT = n.T
+				}
+				if oldT != nil && newT != nil {
+					for j := range s.W.Nondet {
+						if s.W.Nondet[j].T == oldT {
+							s.W.Nondet[j].T = newT
+						}
+					}
+				}
+				sv.F[i] = v
+			}
+			return
+		}
+	}
 }
